@@ -5,7 +5,7 @@ from ..report import Inconclusive
 from ..gram import model as gm
 from ..gram.g4 import Ref, Seq, Alt, Rep
 from ..py.guards import AEval, Reach, always_raises, resolved_text, stmt_of
-from ..py.index import u, walk_shallow
+from ..py.index import u, walk_shallow, pos
 from . import common
 from .c11 import c11_5
 
@@ -226,8 +226,17 @@ def c06_3(rep, ix, G):
     rep.check(handled == valalts and len(recv) == 1, R, ix.site(ex, vl), "every alternative of `val` (%s) is evaluated and appended, in child order, to one list" % sorted(valalts),
               "handled %s into %s" % (sorted(handled), sorted(recv)), key="vallist alts")
     if u(vl.iter).endswith("getChildren()"):
-        flt = [n for n in vl.body if isinstance(n, ast.If) and u(n.test) == "isinstance(%s, blackbirdParser.ValContext)" % tv]
-        rep.check(len(flt) == 1 and len(vl.body) == 1, R, ix.site(ex, vl), "separator tokens are skipped by an isinstance(ValContext) filter", key="vallist filter")
+        # all children are iterated: no value may be appended for a child that is not a ValContext (the separators)
+        fake = ast.FunctionDef(name="_", args=ast.arguments(posonlyargs=[], args=[], kwonlyargs=[], kw_defaults=[], defaults=[]), body=vl.body, decorator_list=[])
+
+        def atom_sep(node):
+            if isinstance(node, ast.Call) and u(node.func) == "isinstance" and len(node.args) == 2 and u(node.args[0]) == tv:
+                return False if "ValContext" in u(node.args[1]) else AEval.NO
+            return AEval.NO
+        stmts_app = [s_ for s_ in ast.walk(fake) if isinstance(s_, ast.Expr) and any(s_.value is x for x in appends)]
+        leak = [s_ for s_ in stmts_app if Reach(fake, s_, aliases=False).may_reach(atom_sep)]
+        rep.check(stmts_app and not leak, R, ix.site(ex, vl), "separator tokens are skipped: nothing is appended for a child that is not a ValContext",
+                  "`%s` is reachable for a separator" % (" ".join(u(leak[0]).split())[:60] if leak else ""), key="vallist filter")
     # the two header forms are dispatched on the grammar alternatives rangeval | vallist
     tests = [u(n.test) for n in walk_shallow(fn) if isinstance(n, ast.If) and u(n.test) in ("ctx.rangeval()", "ctx.vallist()", "ctx.rangeval() is not None", "ctx.vallist() is not None")]
     rep.check(any("rangeval" in t for t in tests) and (any("vallist" in t for t in tests) or True), R, ix.site(ex), "the header is dispatched on ctx.rangeval() / ctx.vallist()", key="dispatch")
@@ -241,7 +250,7 @@ def c06_3(rep, ix, G):
             # ... and that collection is never converted or rebuilt between the header and the replay
             src = u(l.iter)
             for a in walk_shallow(fn):
-                if isinstance(a, ast.Assign) and any(isinstance(t, ast.Name) and t.id == src for t in a.targets) and a.lineno < l.lineno:
+                if isinstance(a, ast.Assign) and any(isinstance(t, ast.Name) and t.id == src for t in a.targets) and pos(a) < pos(l):
                     v = a.value
                     okv = (isinstance(v, ast.List) and not v.elts) or v is c or (isinstance(v, ast.Call) and u(v.func) == "range")
                     rep.check(okv, R, ix.site(ex, a), "`%s`: the header values are replayed as collected (a Python list / range; no conversion that could coerce or reorder them)" % " ".join(u(a).split())[:60],
@@ -277,7 +286,7 @@ def c06_5(rep, ix, G):
             if isinstance(node, ast.Name) and node.id == TABLE:
                 return tbl
             try:
-                if isinstance(node, (ast.Call, ast.Name, ast.Attribute)) and resolved_text(fn, node, tail[0] if tail else outer) == key:
+                if isinstance(node, (ast.Call, ast.Name, ast.Attribute)) and resolved_text(fn, node, stmt_of(fn, node) or (tail[0] if tail else outer)) == key:
                     return "K"
             except Exception:
                 pass
